@@ -5,7 +5,7 @@ accounting only runs under now >= target (no unsigned wrap); the kernel timer of
 reader of that clock uses, with absolute programming; a reconfiguration always discards data accumulated under the old
 settings; the heap comparisons use one key per heap and both child-existence tests use the heap size.
 Not decided: the heap invariant over all insert/remove sequences ("eventually fires for every population") and kernel accuracy."""
-from dqsa import paths
+from dqsa import paths, consts
 from .common import *
 from .sync_common import entry_point
 from .C03 import root_ptr
@@ -226,6 +226,156 @@ def rule_SB5(rep, prog):
                 sample={"preds": preds})
 
 
+HEAP_MUT = ("_dispatch_timer_heap_insert", "_dispatch_timer_heap_update", "_dispatch_timer_heap_remove")
+
+
+def rule_MP6(rep, prog):
+    rid = rep.rule("C11-MP6", "always fires: every mutation of a timer heap (insert / key update / remove) is followed on every path to the function's return by "
+                   "_dispatch_timers_heap_dirty on the same heap array, so the manager re-evaluates the minimum and re-programs the kernel timer", floor=3)
+    n = 0
+    for fn in prog.all_functions():
+        if fn.name in HEAP_MUT:
+            continue
+        muts = [c for c in fn.all_insts() if c.op == "call" and c.callee in HEAP_MUT]
+        if not muts:
+            continue
+        rep.saw(fn)
+        dirty = calls_named(fn, "_dispatch_timers_heap_dirty")
+        dstores = [i for i in fn.all_insts() if i.op == "store" and "dth_dirty_bits" in prog.fields(i)]
+        for m in muts:
+            n += 1
+            base = root_ptr(fn, m.ops[0])
+            marks = [d for d in dirty if root_ptr(fn, d.ops[0]) == base] + [d for d in dstores if root_ptr(fn, d.d["ptr"]["base"]) == base]
+            ok = bool(marks) and fn.must_pass(m, marks)[0]
+            rep.require(rid, ok, m.loc, fn.name, "heap-mutation-without-dirty:%s" % m.callee,
+                        "%s changes a timer heap through %s but a path to its return does not mark the heaps dirty: the kernel timer stays programmed for the OLD "
+                        "minimum and a timer moved earlier (or newly armed) does not fire on time" % (fn.name, m.callee), sample={"fn": fn.name, "mutation": m.callee})
+    if n < 3:
+        rep.unknown(rid, "fewer than 3 heap mutation sites found (%d)" % n)
+
+
+def armed_tests(fn, k_armed):
+    out = []
+    for i in fn.all_insts():
+        if i.op == "icmp" and i.d["pred"] in ("ne", "eq") and i.ops[1][0] == "c" and i.ops[1][1] == 0:
+            a = fn.inst(i.ops[0])
+            if a is not None and a.op == "and" and a.ops[1][0] == "c" and a.ops[1][1] == k_armed:
+                src = fn.inst(a.ops[0])
+                if src is not None and src.op == "call" and "unote_state" in (src.callee or ""):
+                    out.append((i, src, i.d["pred"] == "ne"))
+    return out
+
+
+def rule_MP7(rep, prog):
+    rid = rep.rule("C11-MP7", "follows only the new settings: in _dispatch_timer_unote_resume an armed timer reaches the in-place heap update only after "
+                   "du_ident == new heap index was established on that path; otherwise (clock / QoS class changed) it is first removed from the OLD heap", floor=1)
+    fn = prog.fn("_dispatch_timer_unote_resume")
+    rep.saw(fn)
+    k = consts.get(["DU_STATE_ARMED"], unit="event/event")
+    arm = calls_named(fn, "_dispatch_timer_unote_arm")
+    dis = calls_named(fn, "_dispatch_timer_unote_disarm")
+    at = armed_tests(fn, k["DU_STATE_ARMED"])
+    if len(arm) != 1 or not dis or not at:
+        rep.unknown(rid, "anchor vanished in _dispatch_timer_unote_resume (arm=%d disarm=%d armed tests=%d)" % (len(arm), len(dis), len(at)))
+        return
+    arm = arm[0]
+    tidx = arm.ops[2]
+    idcmp = []
+    for i in fn.all_insts():
+        if i.op == "icmp" and i.d["pred"] in ("ne", "eq"):
+            for a, b in ((0, 1), (1, 0)):
+                l = fn.inst(i.ops[a])
+                if l is not None and l.op == "load" and "du_ident" in prog.fields(l) and list(i.ops[b]) == list(tidx):
+                    idcmp.append((i, i.d["pred"] == "eq"))
+    entry = fn.blocks[0].insts[0]
+    bad = None
+    npaths = 0
+    for pol in (True, False):
+        ctx = paths.PathCtx(fn)
+        for t, src, p in at:
+            ctx.truth[t.id] = (pol == p)
+        for kind, inst, cx, path in paths.walk(fn, entry, lambda i: i is arm, avoid=lambda i: i in dis, ctx=ctx):
+            if kind != "hit":
+                continue
+            npaths += 1
+            if not pol:
+                continue          # not armed: inserted into the heap of the new index
+            if not any(cx.truth.get(c.id) == eqpol for c, eqpol in idcmp):
+                bad = path
+    rep.require(rid, bad is None and npaths >= 2, arm.loc, fn.name, "armed-update-on-wrong-heap",
+                "_dispatch_timer_unote_resume lets a timer that is still armed in heap du_ident reach _dispatch_timer_heap_update on the heap of the NEW index without "
+                "having compared the two (path %s): the update sifts the other clock's heap with this timer's stale slot numbers and a bystander timer there is "
+                "dropped, while this timer stays keyed on the old clock" % (bad,), sample={"paths": npaths, "ident_tests": len(idcmp)})
+
+
+def rule_MP8(rep, prog):
+    rid = rep.rule("C11-MP8", "the timer heaps are manager-owned: _dispatch_source_invoke2 unregisters a source off the manager queue only under "
+                   "du_is_timer && !armed (nothing left in a heap), and _dispatch_source_wakeup routes the cancelled source to its target queue under the same test", floor=2)
+    k = consts.get(["DU_STATE_ARMED", "DU_STATE_NEEDS_DELETE"], unit="event/event")
+    fn = prog.fn("_dispatch_source_invoke2")
+    rep.saw(fn)
+    unreg = calls_named(fn, "_dispatch_source_refs_unregister")
+    if not unreg:
+        rep.unknown(rid, "no _dispatch_source_refs_unregister call in _dispatch_source_invoke2")
+        return
+    at = armed_tests(fn, k["DU_STATE_ARMED"])
+    def is_dkq(op):
+        if op[0] == "g":
+            return op[1] == "_dispatch_mgr_q"
+        i = fn.inst(op) if op[0] == "i" else None
+        return i is not None and i.op == "phi" and any(o[0][0] == "g" and o[0][1] == "_dispatch_mgr_q" for o in i.ops)
+    on_kq = [c for c in fn.all_insts() if c.op == "icmp" and c.d["pred"] in ("eq", "ne") and (is_dkq(c.ops[0]) or is_dkq(c.ops[1]))]
+    if not on_kq:
+        rep.unknown(rid, "anchor vanished in _dispatch_source_invoke2 (armed tests=%d, dq==dkq tests=%d)" % (len(at), len(on_kq)))
+        return
+    idom, _ = fn.idom()
+    for u in unreg:
+        # local case analysis: assume the timer IS armed (or the source is not a timer); then every path from two dominators up must establish dq == dkq
+        dc = paths.dom_ctx(fn, u)
+        disarmed_here = False
+        for cid, tv in dc.truth.items():
+            c = fn.insts[cid]
+            if c.op == "icmp" and c.d["pred"] in ("eq", "ne") and tv == (c.d["pred"] == "ne") and c.ops[1][0] == "c" and c.ops[1][1] == 0:
+                a = fn.inst(c.ops[0])
+                if a is not None and a.op == "and" and a.ops[1][0] == "c" and a.ops[1][1] == k["DU_STATE_NEEDS_DELETE"]:
+                    src = fn.inst(a.ops[0])
+                    if src is not None and src.op == "call" and "unote_state" in (src.callee or ""):
+                        disarmed_here = True
+        if disarmed_here:
+            # deferred-delete acknowledgement: NEEDS_DELETE is a state of fd/signal unotes whose kernel event was one-shot; no timer function sets it
+            setters = [c.fn.name for f2 in prog.all_functions() for c in f2.all_insts() if c.op == "call" and "unote_state_set" in (c.callee or "")
+                       and len(c.ops) > 1 and c.ops[1][0] == "c" and (c.ops[1][1] & k["DU_STATE_NEEDS_DELETE"]) and "timer" in f2.name]
+            rep.require(rid, not setters, u.loc, fn.name, "needs-delete-on-timer",
+                        "the deferred-delete unregistration in _dispatch_source_invoke2 runs on any queue; that is only safe while no timer code sets NEEDS_DELETE (%s does)" % setters,
+                        sample={"site": u.loc, "dominated_by": "NEEDS_DELETE test; no timer function sets that bit"})
+            continue
+        sb = u.block.id
+        for _ in range(2):
+            sb = idom.get(sb, sb)
+        start = fn.blocks[sb].insts[0]
+        ctx = paths.dom_ctx(fn, start)
+        for t, src, pol in at:
+            ctx.truth[t.id] = pol
+        bad = None
+        np_ = 0
+        for kind, inst, c2, path in paths.walk(fn, start, lambda i: i is u, ctx=ctx):
+            if kind != "hit":
+                continue
+            np_ += 1
+            if not any(c2.truth.get(c.id) == (c.d["pred"] == "eq") for c in on_kq):
+                bad = path
+        rep.require(rid, bad is None and np_ >= 1, u.loc, fn.name, "unregister-armed-timer-off-manager",
+                    "_dispatch_source_invoke2 can reach the unregistration (path %s) on a queue other than the manager's while the timer is still armed: the worker "
+                    "thread removes it from the unlocked timer heap concurrently with the manager thread arming / firing other timers on the same clock" % (bad,),
+                    sample={"armed_tests": len(at), "paths": np_})
+    fn = prog.fn("_dispatch_source_wakeup")
+    rep.saw(fn)
+    at = armed_tests(fn, k["DU_STATE_ARMED"])
+    rep.require(rid, bool(at), fn.blocks[0].insts[0].loc, fn.name, "wakeup-no-armed-test",
+                "_dispatch_source_wakeup no longer tests the armed state before sending a cancelled timer to its target queue for unregistration",
+                sample={"armed_tests": len(at)})
+
+
 def run(rep, tier="quick", srcdir=None, only=None):
     prog, units = load(UNITS, tier, srcdir)
     rep.units = units
@@ -238,6 +388,12 @@ def run(rep, tier="quick", srcdir=None, only=None):
         rule_MP4(rep, prog)
     if want("C11-SB5"):
         rule_SB5(rep, prog)
+    if want("C11-MP6"):
+        rule_MP6(rep, prog)
+    if want("C11-MP7"):
+        rule_MP7(rep, prog)
+    if want("C11-MP8"):
+        rule_MP8(rep, prog)
 
 
 MANIFEST = {
